@@ -416,7 +416,10 @@ void MatrixAppendCol(matrix* m, dvector *col)
     }
     else{
       for(i = 0; i < rowsize; i++){
-        m->data[i][lastcol] = col->data[i];
+        if(i < col->size)
+          m->data[i][lastcol] = col->data[i];
+        else /* column shorter than the matrix is tall */
+          m->data[i][lastcol] = +0.f;
       }
     }
   }
@@ -546,7 +549,10 @@ void MatrixAppendUICol(matrix* m, uivector *col)
     }
     else{
       for(i = 0; i < rowsize; i++){
-        m->data[i][lastcol] = col->data[i];
+        if(i < col->size)
+          m->data[i][lastcol] = col->data[i];
+        else /* column shorter than the matrix is tall */
+          m->data[i][lastcol] = +0.f;
       }
     }
   }
